@@ -46,3 +46,6 @@ add('C13', 'exploration', 'exhaustive enumeration of six full products (WHERE ex
 add('C18', 'exploration', 'exhaustive enumeration of the full product head keyword x prefix x casing x continuation (+ WITH/CTE forms)',
     'Every single-word DML/DDL keyword of the nine tables, CREATE OR REPLACE under every inner-whitespace spelling, non-DML heads and WITH [RECURSIVE] statements with 1-3 CTEs, crossed with 13 whitespace/comment prefixes, 4 casings and 31 continuations; get_type() is compared with the written head. Exhaustive (full product).',
     'Trusted: CPython; head words are read from the keyword tables of the tree under test.', 'DESIGN.md 4/C18')
+add('C17', 'model_checking', 'explicit-state BFS to fixpoint over the product (reference push-down recogniser x real StatementSplitter), every transition executed on the real process(); every model trace replayed through split()/parse()',
+    'All reachable states of the product of a reference push-down recogniser of the procedural grammar (stack depth <= 3 quick / 4 thorough) with the real StatementSplitter attribute tuple are explored to fixpoint; each transition feeds the real lexer tokens of one event through the real process(); invariant on every semicolon edge: real split decision == reference. The BFS-shortest trace to every product state, completed to a whole script, is rendered to SQL (two spellings) and run through sqlparse.split/parse (traces_validated_against_impl).',
+    'Trusted: CPython; the procedural grammar as written in vlib/splitmodel.py; conditions/headers/simple statements abstracted to name tokens; states whose real counters drift beyond the bound are checked by their shortest completion instead of being expanded.', 'DESIGN.md 4/C17')
